@@ -356,6 +356,9 @@ func doMaster(c *checks.Check, seed int64) int {
 	if len(knownSeen) > 0 {
 		cov["known_findings_observed"] = knownSeen
 	}
+	if c.Assumptions == nil {
+		c.Assumptions = []string{}
+	}
 	ev := &fw.Evidence{PropertyID: c.ID, Tier: *tier, Seed: seed, Level: c.Level, Coverage: cov, Assumptions: c.Assumptions,
 		WallS: time.Since(start).Seconds(), Violations: nUnknown}
 	os.MkdirAll(filepath.Join(*verifDir, "evidence"), 0o755)
